@@ -1,7 +1,774 @@
-//! C11 — not built yet (stub).
+//! C11 — Every accepted request gets exactly one matching response from the right zone.
+//!
+//! Catalogs with nested / sibling / root zones (every zone carries apex, `www` and wildcard TXT
+//! "zone=<origin>", so an answer names the zone that served it), optional chained
+//! `[SkipHandler, InMemory]` pairs, allow/deny network sets, UDP/TCP — driven through the real
+//! server front door `VerifFrontDoor::handle(bytes, src, protocol, BufDnsStreamHandle)`; what the
+//! server sends is read from the receiver paired with the handle. Oracle: `refm::frontdoor_ref`.
 
-use crate::core::Check;
+use std::collections::BTreeSet;
+use std::net::{IpAddr, SocketAddr};
+use std::sync::Arc;
+
+use futures_util::{FutureExt, StreamExt};
+use hickory_net::xfer::Protocol;
+use hickory_net::BufDnsStreamHandle;
+use hickory_proto::rr::rdata::{NS, SOA, TXT};
+use hickory_proto::rr::{LowerName, RData, Record, RecordType};
+use hickory_server::server::{RequestInfo, VerifFrontDoor};
+use hickory_server::store::in_memory::InMemoryZoneHandler;
+use hickory_server::zone_handler::{AuthLookup, AxfrPolicy, Catalog, LookupControlFlow, LookupOptions, ZoneHandler, ZoneType};
+use proptest::collection::vec;
+use proptest::prelude::*;
+use serde::{Deserialize, Serialize};
+
+use crate::core::{catch, panic_fail, prop, CaseResult, Check, Fail, Rec, Tier};
+use crate::gen::zones::hname;
+use crate::refm::canon;
+use crate::refm::frontdoor_ref::{self as fdr, Access, BodyState, Net};
+use crate::refm::wire_lite::{self as wl, Name};
+use crate::sim::SimRt;
+
+// ---------------------------------------------------------------------------------------------
+// configuration universe
+
+const ORIGINS: [&str; 8] = [".", "test.", "a.test.", "b.test.", "x.a.test.", "y.x.a.test.", "other.", "atest."];
+
+const NETS_V4: [&str; 6] = ["10.0.0.0/8", "10.1.0.0/16", "10.1.2.0/24", "10.1.2.3/32", "192.168.0.0/16", "0.0.0.0/0"];
+const NETS_V6: [&str; 5] = ["fd00::/8", "fd00:1::/32", "fd00:1:2::/48", "fd00:1:2::1/128", "::/0"];
+const SOURCES: [&str; 13] = [
+    "10.1.2.3",
+    "10.1.2.4",
+    "10.1.9.9",
+    "10.9.9.9",
+    "192.168.1.1",
+    "198.51.100.7",
+    "fd00:1:2::1",
+    "fd00:1:2::2",
+    "fd00:1:9::1",
+    "fd00:9::1",
+    "2001:db8::1",
+    "::ffff:10.1.2.3",
+    "::ffff:198.51.100.7",
+];
+
+#[derive(Clone, Debug, Serialize, Deserialize)]
+pub struct ZoneCfg {
+    pub origin: String,
+    /// served by the chain [SkipHandler, InMemory] instead of [InMemory]
+    pub chained: bool,
+}
+
+#[derive(Clone, Debug, Serialize, Deserialize)]
+pub struct EdnsSpec {
+    pub version: u8,
+    pub do_bit: bool,
+    pub payload: u16,
+}
+
+#[derive(Clone, Debug, Serialize, Deserialize)]
+pub enum Req {
+    Query {
+        id: u16,
+        name: String,
+        qtype: u16,
+        qclass: u16,
+        rd: bool,
+        edns: Option<EdnsSpec>,
+        upper: u16,
+    },
+    /// TXT query with further records in the additional section: `extra_a` an ordinary A record before
+    /// the OPT (fine), `opts` OPT records (RFC 6891 §6.1.1: more than one MUST be answered FORMERR)
+    QueryExtra { id: u16, name: String, extra_a: bool, opts: u8 },
+    /// STATUS / NOTIFY / IQUERY / DSO / unassigned opcodes with an ordinary question
+    OtherOp { id: u16, opcode: u8, name: String, qtype: u16 },
+    /// RFC 2136 UPDATE: zone section + `adds` A records in the update section
+    Update { id: u16, zone: String, adds: u8 },
+    /// the inner request with QR set
+    AsResponse(Box<Req>),
+    Short(#[serde(with = "crate::core::hexser")] Vec<u8>),
+    /// QDCOUNT 0 or 2 (two well-formed questions follow for 2)
+    QdCount { id: u16, n: u8, name: String },
+    /// header with the given opcode and counts, followed by arbitrary octets
+    Garbage {
+        id: u16,
+        opcode: u8,
+        counts: [u16; 4],
+        #[serde(with = "crate::core::hexser")]
+        body: Vec<u8>,
+    },
+    /// octet-level edits of a valid request: (kind, position, value)
+    Mutated { base: Box<Req>, muts: Vec<(u8, u16, u8)> },
+    Random(#[serde(with = "crate::core::hexser")] Vec<u8>),
+}
+
+#[derive(Clone, Debug, Serialize, Deserialize)]
+pub struct ReqCase {
+    pub src: String,
+    pub port: u16,
+    pub tcp: bool,
+    pub req: Req,
+}
+
+#[derive(Clone, Debug, Serialize, Deserialize)]
+pub struct Case {
+    pub zones: Vec<ZoneCfg>,
+    pub deny: Vec<String>,
+    pub allow: Vec<String>,
+    pub reqs: Vec<ReqCase>,
+}
+
+// ---------------------------------------------------------------------------------------------
+// generators
+
+fn qname_pool() -> Vec<String> {
+    let mut v = Vec::new();
+    for o in ORIGINS {
+        let o = if o == "." { "" } else { o };
+        v.push(if o.is_empty() { ".".to_string() } else { o.to_string() });
+        v.push(format!("www.{o}"));
+        v.push(format!("q.{o}"));
+        v.push(format!("q.r.{o}"));
+    }
+    v.push("nozone.invalid.".into());
+    v.push("xtest.".into());
+    v.push("est.".into());
+    v.push("ns.test.".into());
+    v.push("deep.www.a.test.".into());
+    v
+}
+
+fn query() -> impl Strategy<Value = Req> {
+    let edns = prop_oneof![
+        4 => Just(None),
+        4 => (any::<bool>(), prop_oneof![Just(512u16), Just(1232), Just(4096), Just(0)]).prop_map(|(do_bit, payload)| Some(EdnsSpec { version: 0, do_bit, payload })),
+        3 => (prop_oneof![Just(1u8), Just(2), Just(255)], any::<bool>()).prop_map(|(version, do_bit)| Some(EdnsSpec { version, do_bit, payload: 1232 })),
+    ];
+    let qtype = prop_oneof![
+        12 => Just(wl::T_TXT),
+        2 => Just(wl::T_A),
+        1 => Just(wl::T_SOA),
+        1 => Just(wl::T_NS),
+        1 => Just(wl::T_ANY),
+        1 => Just(wl::T_AXFR),
+    ];
+    let qclass = prop_oneof![12 => Just(1u16), 1 => Just(3u16), 1 => Just(255u16)];
+    (
+        any::<u16>(),
+        prop::sample::select(qname_pool()),
+        qtype,
+        qclass,
+        any::<bool>(),
+        edns,
+        prop_oneof![3 => Just(0u16), 1 => any::<u16>()],
+    )
+        .prop_map(|(id, name, qtype, qclass, rd, edns, upper)| Req::Query {
+            id,
+            name,
+            qtype,
+            qclass,
+            rd,
+            edns,
+            upper,
+        })
+}
+
+fn valid_req() -> impl Strategy<Value = Req> {
+    prop_oneof![
+        12 => query(),
+        2 => (any::<u16>(), prop::sample::select(qname_pool()), any::<bool>(), 0u8..3).prop_map(|(id, name, extra_a, opts)| Req::QueryExtra { id, name, extra_a, opts }),
+        3 => (any::<u16>(), prop_oneof![Just(1u8), Just(2), Just(3), Just(4), Just(6), 7u8..16], prop::sample::select(qname_pool()), prop_oneof![Just(wl::T_TXT), Just(wl::T_SOA)])
+            .prop_map(|(id, opcode, name, qtype)| Req::OtherOp { id, opcode, name, qtype }),
+        2 => (any::<u16>(), prop::sample::select(ORIGINS.to_vec()), 0u8..3).prop_map(|(id, zone, adds)| Req::Update { id, zone: zone.to_string(), adds }),
+    ]
+}
+
+fn req() -> impl Strategy<Value = Req> {
+    prop_oneof![
+        16 => valid_req(),
+        2 => valid_req().prop_map(|r| Req::AsResponse(Box::new(r))),
+        1 => vec(any::<u8>(), 0..12).prop_map(Req::Short),
+        2 => (any::<u16>(), prop_oneof![Just(0u8), Just(2u8)], prop::sample::select(qname_pool())).prop_map(|(id, n, name)| Req::QdCount { id, n, name }),
+        3 => (
+            any::<u16>(),
+            prop_oneof![4 => Just(0u8), 1 => Just(5u8), 1 => 0u8..16],
+            (prop_oneof![3 => Just(1u16), 1 => 0u16..4, 1 => any::<u16>()], 0u16..3, 0u16..3, 0u16..3).prop_map(|(a, b, c, d)| [a, b, c, d]),
+            prop_oneof![
+                vec(any::<u8>(), 0..40),
+                // label-shaped garbage: plausible names, reserved label types, pointers
+                vec(prop_oneof![Just(1u8), Just(b'a'), Just(0), Just(0xc0), Just(0x0c), Just(0x40), Just(0x80), Just(63), any::<u8>()], 0..40),
+            ]
+        )
+            .prop_map(|(id, opcode, counts, body)| Req::Garbage { id, opcode, counts, body }),
+        6 => (valid_req(), vec((0u8..6, any::<u16>(), any::<u8>()), 1..4)).prop_map(|(base, muts)| Req::Mutated { base: Box::new(base), muts }),
+        2 => vec(any::<u8>(), 12..80).prop_map(Req::Random),
+    ]
+}
+
+fn case_strategy(_tier: Tier) -> impl Strategy<Value = Case> {
+    let zones = prop::sample::subsequence(ORIGINS.to_vec(), 1..=5).prop_flat_map(|os| {
+        let n = os.len();
+        (Just(os), vec(prop::bool::weighted(0.25), n)).prop_map(|(os, ch)| {
+            os.into_iter()
+                .zip(ch)
+                .map(|(o, chained)| ZoneCfg {
+                    origin: o.to_string(),
+                    chained,
+                })
+                .collect::<Vec<_>>()
+        })
+    });
+    let nets = || {
+        prop_oneof![
+            5 => Just(Vec::<String>::new()),
+            3 => prop::sample::subsequence([&NETS_V4[..], &NETS_V6[..]].concat(), 1..=4).prop_map(|v| v.into_iter().map(String::from).collect()),
+        ]
+    };
+    let rc = (prop::sample::select(SOURCES.to_vec()), 1u16..=65535, any::<bool>(), req()).prop_map(|(src, port, tcp, req)| ReqCase {
+        src: src.to_string(),
+        port,
+        tcp,
+        req,
+    });
+    (zones, nets(), nets(), vec(rc, 1..=6)).prop_map(|(zones, deny, allow, reqs)| Case { zones, deny, allow, reqs })
+}
+
+// ---------------------------------------------------------------------------------------------
+// rendering requests to octets
+
+fn upper_name(name: &str, mask: u16) -> Name {
+    let mut i = 0u32;
+    wl::parse_name_str(name)
+        .into_iter()
+        .map(|l| {
+            l.into_iter()
+                .map(|b| {
+                    if b.is_ascii_lowercase() {
+                        let up = (mask >> (i % 16)) & 1 == 1;
+                        i += 1;
+                        if up {
+                            return b.to_ascii_uppercase();
+                        }
+                    }
+                    b
+                })
+                .collect()
+        })
+        .collect()
+}
+
+/// (octets, pristine): pristine = produced by a constructor every implementation must accept
+fn render(r: &Req) -> (Vec<u8>, bool) {
+    match r {
+        Req::Query {
+            id,
+            name,
+            qtype,
+            qclass,
+            rd,
+            edns,
+            upper,
+        } => {
+            let mut v = wl::header_bytes(*id, false, 0, u8::from(*rd), 0, [1, 0, 0, u16::from(edns.is_some())]);
+            wl::put_question(&mut v, &upper_name(name, *upper), *qtype, *qclass);
+            if let Some(e) = edns {
+                wl::put_rr(&mut v, &wl::OutRr::opt(e.payload, 0, e.version, e.do_bit, vec![]));
+            }
+            (v, true)
+        }
+        Req::QueryExtra { id, name, extra_a, opts } => {
+            let mut v = wl::header_bytes(*id, false, 0, 0, 0, [1, 0, 0, u16::from(*extra_a) + *opts as u16]);
+            wl::put_question(&mut v, &wl::parse_name_str(name), wl::T_TXT, 1);
+            if *extra_a {
+                wl::put_rr(
+                    &mut v,
+                    &wl::OutRr {
+                        owner: wl::parse_name_str("extra.invalid."),
+                        rtype: wl::T_A,
+                        class: 1,
+                        ttl: 60,
+                        rdata: vec![192, 0, 2, 9],
+                    },
+                );
+            }
+            for _ in 0..*opts {
+                wl::put_rr(&mut v, &wl::OutRr::opt(1232, 0, 0, false, vec![]));
+            }
+            // with two OPTs the oracle finds the framing-level defect itself; the rest is valid
+            (v, true)
+        }
+        Req::OtherOp { id, opcode, name, qtype } => {
+            let mut v = wl::header_bytes(*id, false, *opcode, 0, 0, [1, 0, 0, 0]);
+            wl::put_question(&mut v, &wl::parse_name_str(name), *qtype, 1);
+            (v, true)
+        }
+        Req::Update { id, zone, adds } => {
+            // RFC 2136 §2: ZOCOUNT=1 (zone, SOA, IN), PRCOUNT=0, UPCOUNT=adds, ADCOUNT=0
+            let mut v = wl::header_bytes(*id, false, 5, 0, 0, [1, 0, *adds as u16, 0]);
+            let z = wl::parse_name_str(zone);
+            wl::put_question(&mut v, &z, wl::T_SOA, 1);
+            for i in 0..*adds {
+                let mut owner = vec![format!("h{i}").into_bytes()];
+                owner.extend(z.iter().cloned());
+                wl::put_rr(
+                    &mut v,
+                    &wl::OutRr {
+                        owner,
+                        rtype: wl::T_A,
+                        class: 1,
+                        ttl: 300,
+                        rdata: vec![192, 0, 2, i],
+                    },
+                );
+            }
+            (v, true)
+        }
+        Req::AsResponse(inner) => {
+            let (mut v, p) = render(inner);
+            if v.len() > 2 {
+                v[2] |= 0x80;
+            }
+            (v, p)
+        }
+        Req::Short(b) => (b.clone(), false),
+        Req::QdCount { id, n, name } => {
+            let mut v = wl::header_bytes(*id, false, 0, 0, 0, [*n as u16, 0, 0, 0]);
+            for _ in 0..*n {
+                wl::put_question(&mut v, &wl::parse_name_str(name), wl::T_TXT, 1);
+            }
+            (v, false)
+        }
+        Req::Garbage { id, opcode, counts, body } => {
+            let mut v = wl::header_bytes(*id, false, *opcode, 0, 0, *counts);
+            v.extend_from_slice(body);
+            (v, false)
+        }
+        Req::Mutated { base, muts } => {
+            let (mut v, _) = render(base);
+            for (kind, pos, val) in muts {
+                if v.is_empty() {
+                    break;
+                }
+                let p = *pos as usize % v.len();
+                match kind {
+                    0 => v[p] ^= 1 << (val % 8),
+                    1 => v[p] = *val,
+                    2 => v.truncate(p.max(1)),
+                    3 => v.extend(std::iter::repeat(*val).take(1 + (*pos as usize % 7))),
+                    4 => {
+                        // edit one of the four count fields
+                        let f = 4 + 2 * (*pos as usize % 4);
+                        if v.len() >= 12 {
+                            v[f] = 0;
+                            v[f + 1] = val % 4;
+                        }
+                    }
+                    _ => {
+                        // replace a label length / insert a pointer-looking octet pair after the header
+                        if v.len() > 13 {
+                            let q = 12 + (*pos as usize % (v.len() - 13));
+                            v[q] = 0xc0 | (val & 0x3f);
+                        }
+                    }
+                }
+            }
+            (v, false)
+        }
+        Req::Random(b) => (b.clone(), false),
+    }
+}
+
+fn kind_label(r: &Req) -> &'static str {
+    match r {
+        Req::Query { edns: Some(e), .. } if e.version > 0 => "req/query-edns-version>0",
+        Req::Query { edns: Some(_), .. } => "req/query-edns0",
+        Req::Query { .. } => "req/query",
+        Req::QueryExtra { opts: 2, .. } => "req/query-two-opt",
+        Req::QueryExtra { .. } => "req/query-extra-additional",
+        Req::OtherOp { opcode: 2, .. } => "req/status",
+        Req::OtherOp { opcode: 4, .. } => "req/notify",
+        Req::OtherOp { .. } => "req/unknown-opcode",
+        Req::Update { .. } => "req/update",
+        Req::AsResponse(_) => "req/qr=1",
+        Req::Short(_) => "req/shorter-than-header",
+        Req::QdCount { n: 0, .. } => "req/qdcount-0",
+        Req::QdCount { .. } => "req/qdcount-2",
+        Req::Garbage { .. } => "req/garbage-body",
+        Req::Mutated { .. } => "req/mutated-valid",
+        Req::Random(_) => "req/random",
+    }
+}
+
+// ---------------------------------------------------------------------------------------------
+// the system under test
+
+/// first handler of a chain: declines every lookup (`LookupControlFlow::Skip`)
+struct SkipHandler {
+    origin: LowerName,
+}
+
+#[async_trait::async_trait]
+impl ZoneHandler for SkipHandler {
+    fn zone_type(&self) -> ZoneType {
+        ZoneType::Primary
+    }
+    fn axfr_policy(&self) -> AxfrPolicy {
+        AxfrPolicy::Deny
+    }
+    fn origin(&self) -> &LowerName {
+        &self.origin
+    }
+    async fn lookup(
+        &self,
+        _name: &LowerName,
+        _rtype: RecordType,
+        _request_info: Option<&RequestInfo<'_>>,
+        _lookup_options: LookupOptions,
+    ) -> LookupControlFlow<AuthLookup> {
+        LookupControlFlow::Skip
+    }
+    async fn nsec_records(&self, _name: &LowerName, _lookup_options: LookupOptions) -> LookupControlFlow<AuthLookup> {
+        LookupControlFlow::Skip
+    }
+    async fn nsec3_records(
+        &self,
+        _info: hickory_server::zone_handler::Nsec3QueryInfo<'_>,
+        _lookup_options: LookupOptions,
+    ) -> LookupControlFlow<AuthLookup> {
+        LookupControlFlow::Skip
+    }
+    fn nx_proof_kind(&self) -> Option<&hickory_server::dnssec::NxProofKind> {
+        None
+    }
+    fn metrics_label(&self) -> &'static str {
+        "skip"
+    }
+}
+
+fn sub(label: &str, origin: &str) -> String {
+    if origin == "." {
+        format!("{label}.")
+    } else {
+        format!("{label}.{origin}")
+    }
+}
+
+fn build_zone(origin: &str) -> Result<InMemoryZoneHandler<SimRt>, Fail> {
+    let o = hname(origin);
+    let mut h = InMemoryZoneHandler::<SimRt>::empty(o.clone(), ZoneType::Primary, AxfrPolicy::Deny, None);
+    let marker = || RData::TXT(TXT::new(vec![format!("zone={origin}")]));
+    let recs = vec![
+        Record::from_rdata(
+            o.clone(),
+            300,
+            RData::SOA(SOA::new(hname(&sub("ns", origin)), hname(&sub("hostmaster", origin)), 1, 3600, 600, 86400, 60)),
+        ),
+        Record::from_rdata(o.clone(), 300, RData::NS(NS(hname(&sub("ns", origin))))),
+        Record::from_rdata(o.clone(), 300, marker()),
+        Record::from_rdata(hname(&sub("*", origin)), 300, marker()),
+        Record::from_rdata(hname(&sub("www", origin)), 300, marker()),
+    ];
+    for r in recs {
+        let shown = format!("{r}");
+        if !h.upsert_mut(r, 1) {
+            return Err(Fail::new("harness", format!("upsert refused {shown}")));
+        }
+    }
+    Ok(h)
+}
+
+/// names whose TXT answer this check can predict: the apex, `www`, and everything whose closest
+/// encloser is the apex (answered by `*.<origin>`); names at/below `www`, `ns`, `*` and names with
+/// an asterisk label are C10's business
+fn predictable(name: &[Vec<u8>], zone: &[Vec<u8>]) -> bool {
+    if name.iter().any(|l| l == b"*") {
+        return false;
+    }
+    if name.len() == zone.len() {
+        return true;
+    }
+    let below = &name[name.len() - zone.len() - 1];
+    if name.len() == zone.len() + 1 && below == b"www" {
+        return true;
+    }
+    !(below == b"www" || below == b"ns")
+}
+
+fn build_catalog(zones: &[ZoneCfg]) -> Result<Catalog, Fail> {
+    let mut c = Catalog::new();
+    for z in zones {
+        let h = build_zone(&z.origin)?;
+        let origin = LowerName::from(hname(&z.origin));
+        let handlers: Vec<Arc<dyn ZoneHandler>> = if z.chained {
+            vec![Arc::new(SkipHandler { origin: origin.clone() }), Arc::new(h)]
+        } else {
+            vec![Arc::new(h)]
+        };
+        c.upsert(origin, handlers);
+    }
+    Ok(c)
+}
+
+struct Sent {
+    msgs: Vec<Vec<u8>>,
+}
+
+fn drive(fd: &VerifFrontDoor<Catalog>, bytes: Vec<u8>, src: SocketAddr, tcp: bool) -> Result<Sent, Fail> {
+    let proto = if tcp { Protocol::Tcp } else { Protocol::Udp };
+    let (handle, mut rx) = BufDnsStreamHandle::new(src);
+    // "No request content makes the handler panic"
+    match catch(|| futures_executor::block_on(fd.handle(bytes, src, proto, handle))) {
+        Ok(()) => {}
+        Err(p) => return Err(panic_fail(&p)),
+    }
+    let mut msgs = Vec::new();
+    while let Some(Some(m)) = rx.next().now_or_never() {
+        msgs.push(m.into_parts().0);
+    }
+    Ok(Sent { msgs })
+}
+
+// ---------------------------------------------------------------------------------------------
+// the oracle applied to one exchange
+
+fn hex(b: &[u8]) -> String {
+    crate::core::hexser::to_hex(b)
+}
+
+fn check_exchange(req: &[u8], exp: &fdr::Expected, sent: &Sent, what: &dyn Fn() -> String) -> Result<(), Fail> {
+    if exp.responses == 0 {
+        vensure!(
+            sent.msgs.is_empty(),
+            "response-to-a-response-or-runt",
+            "{} message(s) sent for a request that must get nothing ({})\n{}",
+            sent.msgs.len(),
+            exp.gates.join(","),
+            what()
+        );
+        return Ok(());
+    }
+    vensure!(!sent.msgs.is_empty(), "no-response", "nothing was sent\n{}", what());
+    vensure!(sent.msgs.len() == 1, "multiple-responses", "{} messages were sent\n{}", sent.msgs.len(), what());
+    let resp = &sent.msgs[0];
+    let rh = match wl::parse_header(resp) {
+        Ok(h) => h,
+        Err(_) => vfail!("response-shorter-than-header", "response {}\n{}", hex(resp), what()),
+    };
+    vensure!(rh.qr, "response-qr-clear", "response {} has QR clear\n{}", hex(resp), what());
+    vensure!(rh.id == exp.id, "response-id-mismatch", "request id {} response id {}\n{}", exp.id, rh.id, what());
+    let m = match wl::parse(resp) {
+        Ok(m) => m,
+        // the server repeats the question octets verbatim; a pointer in them that referred into the
+        // request's header reads differently in the response (flags differ). Such questions have no
+        // agreed reading (see frontdoor_ref), so only count / ID / QR are judged for them.
+        Err(_) if exp.question_pointer => return Ok(()),
+        Err(e) => vfail!("response-unparseable", "{e:?}: {}\n{}", hex(resp), what()),
+    };
+    let rcode = m.rcode();
+    if let Some((s, e)) = exp.question {
+        let want = &req[s..e];
+        let octets_equal = rh.qd == 1 && resp.get(12..12 + want.len()) == Some(want);
+        let semantically_equal = || {
+            let (Ok((rq, _)), Ok((qq, _))) = (wl::parse_questions(resp, &rh), wl::parse_questions(req, &wl::parse_header(req).unwrap())) else {
+                return false;
+            };
+            rq.len() == 1 && qq.len() == 1 && canon::name_eq(&rq[0].name, &qq[0].name) && rq[0].qtype == qq[0].qtype && rq[0].qclass == qq[0].qclass
+        };
+        vensure!(
+            octets_equal || semantically_equal(),
+            "question-not-echoed",
+            "rcode {} response {} does not repeat the request's question {}\n{}",
+            wl::rcode_name(rcode),
+            hex(resp),
+            hex(want),
+            what()
+        );
+    }
+    if let Some(set) = &exp.rcodes {
+        vensure!(
+            set.contains(&rcode),
+            format!("rcode-outside-set:{}", if exp.gates.is_empty() { "normal".to_string() } else { exp.gates.join("+") }),
+            "rcode {} ; the statement allows {:?} (conditions: {:?}, body {:?})\n{}",
+            wl::rcode_name(rcode),
+            set.iter().map(|r| wl::rcode_name(*r)).collect::<Vec<_>>(),
+            exp.gates,
+            exp.body,
+            what()
+        );
+    }
+    if let (Some(marker), true) = (&exp.marker, rcode == wl::RC_NOERROR) {
+        let qname = exp.qname.clone().unwrap_or_default();
+        let mut markers: BTreeSet<String> = BTreeSet::new();
+        for rr in &m.answers {
+            if rr.rtype == wl::T_TXT {
+                vensure!(
+                    canon::name_eq(&rr.owner, &qname),
+                    "answer-owner-mismatch",
+                    "TXT answer owned by {} for a query about {}\n{}",
+                    canon::show(&rr.owner),
+                    canon::show(&qname),
+                    what()
+                );
+                for s in wl::txt_strings(resp, rr) {
+                    markers.insert(String::from_utf8_lossy(&s).into_owned());
+                }
+            }
+        }
+        vensure!(
+            markers.len() == 1 && markers.contains(marker),
+            "answered-from-wrong-zone",
+            "expected the answer of the longest-suffix zone ({marker}), got {:?}\n{}",
+            markers,
+            what()
+        );
+    }
+    Ok(())
+}
+
+fn run_case(c: &Case, rec: &mut Rec) -> CaseResult {
+    let parse_nets = |v: &[String]| -> Vec<Net> { v.iter().filter_map(|s| Net::parse(s)).collect() };
+    let deny = parse_nets(&c.deny);
+    let allow = parse_nets(&c.allow);
+    let origins: Vec<Name> = c.zones.iter().map(|z| wl::parse_name_str(&z.origin)).collect();
+    if origins.is_empty() {
+        rec.discard("empty-catalog");
+        return Ok(());
+    }
+    let catalog = build_catalog(&c.zones)?;
+    let ipnets = |v: &[String]| -> Vec<ipnet::IpNet> { v.iter().filter_map(|s| s.parse().ok()).collect() };
+    let fd = VerifFrontDoor::new(catalog, ipnets(&c.deny), ipnets(&c.allow));
+
+    // catalog / ACL shape
+    let nested = origins.iter().any(|a| origins.iter().any(|b| a.len() < b.len() && canon::is_suffix(a, b)));
+    let root = origins.iter().any(|o| o.is_empty());
+    rec.class(match (nested, origins.len()) {
+        (_, 1) => "catalog/single-zone",
+        (true, _) => "catalog/nested",
+        (false, _) => "catalog/siblings-only",
+    });
+    if root {
+        rec.class("catalog/root-zone");
+    }
+    if c.zones.iter().any(|z| z.chained) {
+        rec.class("catalog/chained-handlers");
+    }
+    rec.class(match (c.deny.is_empty(), c.allow.is_empty()) {
+        (true, true) => "acl/none",
+        (false, true) => "acl/deny-only",
+        (true, false) => "acl/allow-only",
+        (false, false) => "acl/deny+allow",
+    });
+
+    // the probe: a fixed query from a source the documented rules allow
+    let probe_name = sub("www", &c.zones[0].origin);
+    let probe_src: Option<SocketAddr> = SOURCES
+        .iter()
+        .filter_map(|s| s.parse::<IpAddr>().ok())
+        .find(|ip| fdr::access(&deny, &allow, *ip) == Access::Allowed)
+        .map(|ip| SocketAddr::new(ip, 40000));
+    let probe = |fd: &VerifFrontDoor<Catalog>, after: &str| -> Result<(), Fail> {
+        let Some(src) = probe_src else { return Ok(()) };
+        let bytes = wl::build_query(0xbeef, &wl::parse_name_str(&probe_name), wl::T_TXT, 1, None);
+        let exp = fdr::expect(&bytes, true, Access::Allowed, &origins, &predictable);
+        let sent = drive(fd, bytes.clone(), src, false)?;
+        let what = || format!("probe {probe_name} TXT from {src} after {after}");
+        check_exchange(&bytes, &exp, &sent, &what).map_err(|f| Fail::new(format!("probe-after-hostile:{}", f.sig), f.msg))
+    };
+    probe(&fd, "start")?;
+
+    let mut nt = 0u64;
+    for (i, rc) in c.reqs.iter().enumerate() {
+        let ip: IpAddr = rc.src.parse().map_err(|_| Fail::new("harness", "bad source"))?;
+        let src = SocketAddr::new(ip, rc.port);
+        let (bytes, pristine) = render(&rc.req);
+        let acc = fdr::access(&deny, &allow, ip);
+        let exp = fdr::expect(&bytes, pristine, acc, &origins, &predictable);
+        let sent = drive(&fd, bytes.clone(), src, rc.tcp)?;
+        let what = || {
+            format!(
+                "request #{i} {} from {} over {} [{}]: {}\ncatalog {:?} deny {:?} allow {:?} (source {:?})",
+                kind_label(&rc.req),
+                src,
+                if rc.tcp { "tcp" } else { "udp" },
+                exp.gates.join(","),
+                hex(&bytes),
+                c.zones.iter().map(|z| z.origin.as_str()).collect::<Vec<_>>(),
+                c.deny,
+                c.allow,
+                acc
+            )
+        };
+        check_exchange(&bytes, &exp, &sent, &what)?;
+
+        rec.class(kind_label(&rc.req));
+        for g in &exp.gates {
+            rec.class(format!("gate/{g}"));
+        }
+        rec.class(if rc.tcp { "proto/tcp" } else { "proto/udp" });
+        rec.class(match (ip, fdr::canonical(ip).0) {
+            (IpAddr::V4(_), _) => "src/v4",
+            (IpAddr::V6(_), false) => "src/v4-mapped",
+            (IpAddr::V6(_), true) => "src/v6",
+        });
+        let enclosing = exp.qname.as_ref().map(|q| origins.iter().filter(|o| canon::is_suffix(o, q)).count()).unwrap_or(0);
+        if enclosing >= 2 {
+            rec.class("nesting/several-enclosing-zones");
+        }
+        if exp.marker.is_some() && exp.gates.is_empty() {
+            rec.class("outcome/marker-checked");
+        }
+        if exp.rcodes.is_none() {
+            rec.class("outcome/rcode-unconstrained");
+        }
+        if !exp.gates.is_empty() || enclosing >= 2 {
+            nt += 1;
+        }
+        rec.count("requests", 1);
+        // "…or stop serving later requests": after anything that is not a pristine valid request
+        let hostile = !pristine || exp.responses == 0 || exp.body != BodyState::WellFormed;
+        if hostile {
+            probe(&fd, &format!("request #{i} ({})", kind_label(&rc.req)))?;
+            rec.count("probes-after-hostile", 1);
+        }
+    }
+    probe(&fd, "the whole sequence")?;
+    rec.count("nontrivial-requests", nt);
+    if nt > 0 {
+        rec.nontrivial();
+        if rec.wants_note() {
+            let r: Vec<String> = c
+                .reqs
+                .iter()
+                .map(|rc| {
+                    let (b, _) = render(&rc.req);
+                    format!("{}@{}:{}", kind_label(&rc.req), rc.src, hex(&b))
+                })
+                .collect();
+            rec.note(format!(
+                "zones {:?} deny {:?} allow {:?} requests {}",
+                c.zones.iter().map(|z| format!("{}{}", z.origin, if z.chained { "(chained)" } else { "" })).collect::<Vec<_>>(),
+                c.deny,
+                c.allow,
+                r.join(" ; ")
+            ));
+        }
+    }
+    Ok(())
+}
 
 pub fn check() -> Option<Check> {
-    None
+    let frontdoor = prop("frontdoor", 100_000, 3_000_000, case_strategy, run_case);
+    Some(Check {
+        id: "C11",
+        level: "exploration",
+        rule: "catalog = 1–5 of the origins {., test., a.test., b.test., x.a.test., y.x.a.test., other., atest.} (each zone: SOA, NS, apex/www/wildcard TXT 'zone=<origin>'; 25 % served by a chained [SkipHandler, InMemory] pair) × deny/allow sets drawn from nested v4/v6 prefixes × 1–6 requests per front door from 13 v4 / v6 / v4-mapped sources over UDP or TCP: valid QUERY (TXT/A/SOA/NS/ANY/AXFR, EDNS absent / v0 / v1,2,255), STATUS/NOTIFY/IQUERY/DSO/unassigned opcodes, UPDATE, QR=1, < 12 octets, QDCOUNT 0/2, header+garbage, 1–3 octet-level mutations of a valid request, random octets; a fixed probe query follows every hostile request. A case is non-trivial iff at least one of its requests exercises a gate (short, QR, opcode, malformed / possibly malformed body, denied source, EDNS version, no enclosing zone) or has ≥ 2 enclosing zones; counters.nontrivial-requests counts them; distinct = hash of (catalog, ACL, requests).",
+        assumptions: vec![
+            "requests and responses are read with the harness's own RFC 1035 reader; 'does not parse' is decided at framing level (truncation, counts, label types, pointers, name length, QDCOUNT ≠ 1, > 1 OPT); for mutated/garbage bodies whose framing is fine FORMERR and the normal outcome are both accepted",
+            "RCODE is a member of the set of codes whose condition holds (the statement fixes no precedence); the zone's own answer is pinned only for TXT/IN marker queries (apex, www, names whose closest encloser is the apex); other QUERY/UPDATE answers are C10/C12's subject and only counted, ID, QR and question are checked",
+            "question echo is required for QUERY and UPDATE whose question section parses; for other opcodes only ID/QR/RCODE",
+            "sources have a non-zero port and are neither unspecified nor broadcast (the socket loops drop those before the front door)",
+            "access rules as documented in crates/server/src/access.rs; where the text does not say whether 'no entries' is per address family both outcomes are accepted (gate 'maybe-denied')",
+        ],
+        subs: vec![frontdoor],
+    })
 }
